@@ -562,6 +562,10 @@ def items(tier: str, seed: int) -> List[Dict[str, Any]]:
             add(eng, ["SPN", second], 4, 300)
         for first in ("SPK", "SPB", "SPN", "SEND"):
             add(eng, [first], 3, 300)
+        # a bare service key that resolved uniquely once must be re-resolved after another child of that service appeared
+        # (or the first one went away): send, change the population, send again
+        for third in ("SPK", "SPB", "STPA", "KFIN"):
+            add(eng, ["SPK", "SEND", third], 4, 300)
         if not quick:
             # length 5 for the operation pairs that set up the interesting states (two more symbolic operations + forms)
             for second in ("SPN", "GRND", "STPA"):
